@@ -40,6 +40,11 @@ def effect_sites(fi):
                 out.append((n, "df_sample", t))
             elif t.split(".")[-1] == "bootstrap" or t == "bootstrap":
                 out.append((n, "scipy_bootstrap", t))
+            elif t.split(".")[-1] in ("rvs", "resample") or (t.split(".")[-1] in ("permutation_test", "monte_carlo_test")):
+                # scipy.stats distributions / resampling helpers: draw from numpy's GLOBAL generator unless random_state is given
+                out.append((n, "scipy_rvs", t))
+            elif t.split(".")[-1] in ("train_test_split", "KFold", "ShuffleSplit", "shuffle") and "rng" not in t:
+                out.append((n, "scipy_rvs", t))
             elif t.split(".")[-1] in RNG_DRAWS and isinstance(n.func, ast.Attribute) and "rng" in ast.unparse(n.func.value):
                 out.append((n, "rng_draw", t))
             elif t in ("time.time", "datetime.now", "datetime.datetime.now", "datetime.utcnow", "uuid.uuid4", "os.getenv", "os.environ.get", "id", "hash"):
@@ -186,6 +191,10 @@ def effects_unit(h):
                 rs = kws.get("random_state") or kws.get("rng")
                 ok, why = seed_expr_ok(fi, idx, rs)
                 h.ensures(f"seeded[{tag}]", ok, why=f"scipy.stats.bootstrap draws from numpy's GLOBAL generator unless random_state/rng is given: {why}", replay=lambda ev: {"target": "verif_replays:gaussian_twice", "args": [], "check": "result['identical']"})
+            elif p.kind == "scipy_rvs":
+                rs = kws.get("random_state") or kws.get("rng") or kws.get("seed")
+                ok, why = seed_expr_ok(fi, idx, rs)
+                h.ensures(f"seeded[{tag}]", ok, why=f"{p.detail} draws from numpy's GLOBAL generator unless random_state is given: {why}", replay=lambda ev: {"target": "verif_replays:repeat_bootstrap_run_replay", "args": [], "check": "result['exc'] is None and result['ok']"})
             elif p.kind == "global_rng":
                 h.ensures(f"no_global_rng[{tag}]", False, why="call into the process-global random generator")
             elif p.kind == "rng_draw":
